@@ -41,7 +41,7 @@ func allowedFor(s engine.Sink, under map[*ssa.Function]bool, releasers map[*ssa.
 
 // reasoned exceptions to R12.1, one line each (construct → reason)
 var r12Exceptions = map[string]string{
-	"controller/composite.parentController.syncRevisions$1→controller/common/customize.Manager.GetRelatedObjects": "per-revision related lookup repeats, under the same (UID,generation) customize-cache key, the lookup that already succeeded earlier in this sync; its error is replaced by an empty related map",
+	"controller/composite.parentController.syncRevisions$1→controller/common/customize.Manager.GetRelatedObjects":         "per-revision related lookup repeats, under the same (UID,generation) customize-cache key, the lookup that already succeeded earlier in this sync; its error is replaced by an empty related map",
 	"controller/common/customize.Manager.findRelatedParents→controller/common/customize.Manager.getCustomizeHookResponse": "event-handler context, not a sync: a parent whose customize hook fails is skipped; its own resync retries",
 }
 
@@ -113,6 +113,12 @@ func r12_1(r *Report, p *Program) {
 					allowed = []string{"IsNotFound", "IsConflict"}
 				case releasers[f]:
 					allowed = []string{"IsNotFound", "IsGone"}
+				default:
+					// a thin wrapper that hands back the error of its single write: the
+					// call fails exactly when that write fails, with the same benign cases
+					if ws := wrappedSinkOf(p, callee); ws != nil {
+						allowed = allowedFor(*ws, under, releasers)
+					}
 				}
 				var excuse []func(l *Lit) bool
 				if strings.HasSuffix(k, "controller/common.ManageChildren") {
@@ -278,12 +284,20 @@ func r12_4(r *Report, p *Program) {
 	const rule = "R12.4"
 	r.Rule(rule, "429 ⇒ TooManyRequestError before the body is read; composite sync: errors.As ⇒ AddAfter(key, AfterSecond) and nil")
 	r.Floor(rule, 2)
-	if call := fn(r, p, rule, "hooks.webhookExecutor.Call"); call != nil {
+	if root := fn(r, p, rule, "hooks.webhookExecutor.Call"); root != nil {
+		rg := regionOf(p, root)
+		is429 := func(l Lit) bool { return strings.HasSuffix(l.Atom, ".StatusCode == 429)") }
 		var from []engine.Point
-		for _, b := range call.Blocks {
-			for i := range b.Succs {
-				if l, ok := engine.EdgeLit(b, i); ok && l.Pos && strings.HasSuffix(l.Atom, ".StatusCode == 429)") {
-					from = append(from, engine.Point{B: b.Succs[i]})
+		var call *ssa.Function // the function holding the 429 test: Call or a helper it was split into
+		for _, g := range rg.fns {
+			for _, b := range g.Blocks {
+				for i := range b.Succs {
+					if l, ok := engine.EdgeLit(b, i); ok && l.Pos && is429(l) {
+						if call == nil || call == g {
+							call = g
+							from = append(from, engine.Point{B: b.Succs[i]})
+						}
+					}
 				}
 			}
 		}
@@ -293,25 +307,33 @@ func r12_4(r *Report, p *Program) {
 				if isCallTo(in, "io.ReadAll", "json.UnmarshalStrict", "json.Unmarshal", ".adjustResponse", ".isStatusSupported") {
 					return true
 				}
+				if ci, isC := in.(ssa.CallInstruction); isC {
+					if g := engine.StaticFn(ci.Common()); g != nil && rg.site[g].Fn != nil {
+						return true // continues in another piece of the split function
+					}
+				}
 				rt, isR := in.(*ssa.Return)
 				if !isR {
 					return false
 				}
-				v := engine.ResolveLocal(engine.RetVal(rt, 0))
+				v := engine.ResolveLocal(engine.RetVal(rt, engine.ErrorResultIndex(call)))
 				a, isA := engine.Unwrap(v).(*ssa.Alloc)
 				return !isA || !strings.HasSuffix(a.Type().String(), "hooks.TooManyRequestError")
 			}}.Find()
 			if w != nil {
 				ok, why = false, "on 429 the call reaches "+p.InstrPos(w.Instr)+" instead of returning *TooManyRequestError straight away"
 			}
+			if ok && call != root {
+				ok, why = rg.propagates(rg.site[call])
+			}
 			// the 429 test precedes reading the body
-			for _, cs := range callsTo(call, false, "io.ReadAll") {
-				if wb := unguarded(call, nil, cs.Instr.(ssa.Instruction), func(l Lit) bool { return !l.Pos && strings.HasSuffix(l.Atom, ".StatusCode == 429)") }); wb != nil {
+			for _, cs := range rg.calls("io.ReadAll") {
+				if wb := rg.unguarded(cs.Instr.(ssa.Instruction), func(l Lit) bool { return !l.Pos && is429(l) }); wb != nil {
 					ok, why = false, "the body is read before the 429 test"
 				}
 			}
 		}
-		r.Check(rule, FK(call)+"[429]", p.Pos(call.Pos()), ok, "429 ⇒ *TooManyRequestError, body untouched", why)
+		r.Check(rule, FK(root)+"[429]", p.Pos(root.Pos()), ok, "429 ⇒ *TooManyRequestError, body untouched", why)
 	}
 	if sy := fn(r, p, rule, "controller/composite.parentController.sync"); sy != nil {
 		as := callsTo(sy, false, "errors.As")
